@@ -278,118 +278,123 @@ theorem drop_cur_nil {r : Reader K} (hk : r.chunks[r.cur]? = none) : r.chunks.dr
   · rw [List.getElem?_eq_getElem hlt] at hk; cases hk
   · exact List.drop_of_length_le hge
 
+theorem rNext_none {tbl : List (K × CRec)} {r : Reader K} (hk : r.chunks[r.cur]? = none) :
+    rNext tbl r = (.ok none, r) := by
+  unfold rNext; rw [hk]
+
+theorem rNext_some {tbl : List (K × CRec)} {r : Reader K} {k : K} {c : CRec} (hk : r.chunks[r.cur]? = some k)
+    (hf : find k tbl = some c) :
+    rNext tbl r = (.ok (some c.data), { r with cur := r.cur + 1, bytesRead := r.bytesRead + c.data.length }) := by
+  unfold rNext; rw [hk]; simp only [hf]
+
+theorem rNext_missing {tbl : List (K × CRec)} {r : Reader K} {k : K} (hk : r.chunks[r.cur]? = some k)
+    (hf : find k tbl = none) : rNext tbl r = (.error .chunkMissing, r) := by
+  unfold rNext; rw [hk]; simp only [hf]
+
+theorem loaded_some {r : Reader K} {d0 : List Nat} (hl : r.loaded = some d0) :
+    r.data = some d0 ∧ r.off < d0.length := by
+  unfold Reader.loaded at hl
+  cases hd : r.data with
+  | none => simp [hd] at hl
+  | some d =>
+    simp only [hd] at hl
+    by_cases hoff : r.off ≥ d.length
+    · simp [hoff] at hl
+    · simp only [hoff, if_false, Option.some.injEq] at hl
+      subst hl; exact ⟨rfl, by omega⟩
+
+theorem loaded_none {r : Reader K} (hl : r.loaded = none) : pendingChunk r = [] := by
+  unfold Reader.loaded at hl
+  unfold pendingChunk
+  cases hd : r.data with
+  | none => rfl
+  | some d =>
+    simp only [hd] at hl ⊢
+    by_cases hoff : r.off ≥ d.length
+    · exact List.drop_of_length_le hoff
+    · simp [hoff] at hl
+
+/-- the first listed key not fetched yet, its record, and the rest -/
+theorem readChunks_drop_cur {tbl : List (K × CRec)} {r : Reader K} {D : List Nat}
+    (h1 : readChunks tbl (r.chunks.drop r.cur) = .ok D) :
+    (r.chunks[r.cur]? = none ∧ D = []) ∨
+    ∃ k c rest, r.chunks[r.cur]? = some k ∧ find k tbl = some c ∧
+      readChunks tbl (r.chunks.drop (r.cur + 1)) = .ok rest ∧ D = c.data ++ rest := by
+  cases hk : r.chunks[r.cur]? with
+  | none => left; rw [drop_cur_nil hk, readChunks] at h1; cases h1; exact ⟨rfl, rfl⟩
+  | some k =>
+    right
+    rw [drop_cur_cons hk, readChunks] at h1
+    cases hfk : find k tbl with
+    | none => simp [hfk] at h1
+    | some c =>
+      simp only [hfk] at h1
+      cases hrest : readChunks tbl (r.chunks.drop (r.cur + 1)) with
+      | error e => simp [hrest] at h1
+      | ok rest =>
+        simp only [hrest, Except.ok.injEq] at h1
+        exact ⟨k, c, rest, rfl, hfk, rfl, h1.symm⟩
+
 /-- one `read(buf)`: never an error, and the invariant moves the returned bytes from "left" to "delivered" -/
 theorem rRead_ok {tbl : List (K × CRec)} {r : Reader K} {d out : List Nat} (hr : ReaderOk tbl r d out) (n : Nat) :
     ∃ bs, (rRead tbl r n).1 = .ok bs ∧ (rRead tbl r n).2.chunks = r.chunks ∧
       ReaderOk tbl (rRead tbl r n).2 d (out ++ bs) := by
   obtain ⟨D, h1, h2⟩ := hr
-  unfold rRead
-  -- is a chunk loaded and not used up?
-  cases hd : r.data with
+  cases hl : r.loaded with
   | some d0 =>
-    by_cases hoff : r.off ≥ d0.length
-    · -- used up: fetch the next one
-      have hp : pendingChunk r = [] := by
-        unfold pendingChunk; rw [hd]; exact List.drop_of_length_le hoff
-      simp only [hoff, if_true]
-      unfold rNext
-      cases hk : r.chunks[r.cur]? with
-      | none =>
-        refine ⟨[], rfl, rfl, D, h1, ?_⟩
-        simpa using h2
-      | some k =>
-        rw [drop_cur_cons hk, readChunks] at h1
-        cases hfk : find k tbl with
-        | none => simp [hfk] at h1
-        | some c =>
-          simp only [hfk] at h1
-          cases hrest : readChunks tbl (r.chunks.drop (r.cur + 1)) with
-          | error e => simp [hrest] at h1
-          | ok rest =>
-            simp only [hrest, Except.ok.injEq] at h1
-            refine ⟨c.data.take n, rfl, rfl, rest, hrest, ?_⟩
-            simp only [pendingChunk]
-            rw [List.append_assoc out, take_append_drop_length, ← h2, hp, ← h1]
-            simp
-    · -- loaded: hand out from it
-      simp only [hoff, if_false]
-      refine ⟨(d0.drop r.off).take n, rfl, rfl, D, h1, ?_⟩
-      simp only [pendingChunk, hd] at h2 ⊢
-      rw [← h2, List.append_assoc out, ← List.drop_drop, take_append_drop_length]
+    obtain ⟨hd, _⟩ := loaded_some hl
+    have e : rRead tbl r n = (.ok ((d0.drop r.off).take n), { r with off := r.off + ((d0.drop r.off).take n).length }) := by
+      unfold rRead; rw [hl]
+    rw [e]
+    refine ⟨(d0.drop r.off).take n, rfl, rfl, D, h1, ?_⟩
+    simp only [pendingChunk, hd] at h2 ⊢
+    rw [← h2, List.append_assoc out, ← List.drop_drop, take_append_drop_length]
   | none =>
-    have hp : pendingChunk r = [] := by unfold pendingChunk; rw [hd]
-    simp only
-    unfold rNext
-    cases hk : r.chunks[r.cur]? with
-    | none =>
-      refine ⟨[], rfl, rfl, D, h1, ?_⟩
-      simpa using h2
-    | some k =>
-      rw [drop_cur_cons hk, readChunks] at h1
-      cases hfk : find k tbl with
-      | none => simp [hfk] at h1
-      | some c =>
-        simp only [hfk] at h1
-        cases hrest : readChunks tbl (r.chunks.drop (r.cur + 1)) with
-        | error e => simp [hrest] at h1
-        | ok rest =>
-          simp only [hrest, Except.ok.injEq] at h1
-          refine ⟨c.data.take n, rfl, rfl, rest, hrest, ?_⟩
-          simp only [pendingChunk]
-          rw [List.append_assoc out, take_append_drop_length, ← h2, hp, ← h1]
-          simp
+    have hp := loaded_none hl
+    rcases readChunks_drop_cur h1 with ⟨hk, hD⟩ | ⟨k, c, rest, hk, hfk, hrest, hD⟩
+    · have e : rRead tbl r n = (.ok [], r) := by
+        unfold rRead; rw [hl, rNext_none hk]
+      rw [e]
+      exact ⟨[], rfl, rfl, D, h1, by simpa using h2⟩
+    · have e : rRead tbl r n = (.ok (c.data.take n),
+          { r with cur := r.cur + 1, bytesRead := r.bytesRead + c.data.length, data := some c.data,
+                   off := (c.data.take n).length }) := by
+        unfold rRead; rw [hl, rNext_some hk hfk]
+      rw [e]
+      refine ⟨c.data.take n, rfl, rfl, rest, hrest, ?_⟩
+      simp only [pendingChunk]
+      rw [List.append_assoc out, take_append_drop_length, ← h2, hp, hD]
+      simp
 
 /-- with a non-empty buffer, `read` returns no bytes only when nothing is left -/
 theorem rRead_eof {tbl : List (K × CRec)} (hn : NE tbl) {r : Reader K} {d out : List Nat}
     (hr : ReaderOk tbl r d out) {n : Nat} (hpos : 0 < n) (he : (rRead tbl r n).1 = .ok []) : out = d := by
   obtain ⟨D, h1, h2⟩ := hr
-  have key : pendingChunk r = [] ∧ D = [] := by
-    unfold rRead at he
-    cases hd : r.data with
-    | some d0 =>
-      by_cases hoff : r.off ≥ d0.length
-      · have hp : pendingChunk r = [] := by
-          unfold pendingChunk; rw [hd]; exact List.drop_of_length_le hoff
-        refine ⟨hp, ?_⟩
-        simp only [hd, hoff, if_true] at he
-        unfold rNext at he
-        cases hk : r.chunks[r.cur]? with
-        | none => rw [drop_cur_nil hk, readChunks] at h1; cases h1; rfl
-        | some k =>
-          rw [drop_cur_cons hk, readChunks] at h1
-          cases hfk : find k tbl with
-          | none => simp [hfk] at h1
-          | some c =>
-            simp only [hk, hfk, Except.ok.injEq] at he
-            have hc := hn (k, c) (find_some_mem hfk)
-            have hlen : (c.data.take n).length = 0 := by rw [he]; rfl
-            rw [List.length_take] at hlen
-            have : 0 < c.data.length := List.length_pos_iff.mpr hc
-            omega
-      · simp only [hd, hoff, if_false, Except.ok.injEq] at he
-        have hlen : ((d0.drop r.off).take n).length = 0 := by rw [he]; rfl
-        rw [List.length_take, List.length_drop] at hlen
-        omega
-    | none =>
-      have hp : pendingChunk r = [] := by unfold pendingChunk; rw [hd]
-      refine ⟨hp, ?_⟩
-      simp only [hd] at he
-      unfold rNext at he
-      cases hk : r.chunks[r.cur]? with
-      | none => rw [drop_cur_nil hk, readChunks] at h1; cases h1; rfl
-      | some k =>
-        rw [drop_cur_cons hk, readChunks] at h1
-        cases hfk : find k tbl with
-        | none => simp [hfk] at h1
-        | some c =>
-          simp only [hk, hfk, Except.ok.injEq] at he
-          have hc := hn (k, c) (find_some_mem hfk)
-          have hlen : (c.data.take n).length = 0 := by rw [he]; rfl
-          rw [List.length_take] at hlen
-          have : 0 < c.data.length := List.length_pos_iff.mpr hc
-          omega
-  rw [key.1, key.2] at h2
-  simpa using h2
+  cases hl : r.loaded with
+  | some d0 =>
+    obtain ⟨hd, hoff⟩ := loaded_some hl
+    have e : rRead tbl r n = (.ok ((d0.drop r.off).take n), { r with off := r.off + ((d0.drop r.off).take n).length }) := by
+      unfold rRead; rw [hl]
+    rw [e] at he
+    simp only [Except.ok.injEq] at he
+    have hlen : ((d0.drop r.off).take n).length = 0 := by rw [he]; rfl
+    rw [List.length_take, List.length_drop] at hlen
+    omega
+  | none =>
+    have hp := loaded_none hl
+    rcases readChunks_drop_cur h1 with ⟨hk, hD⟩ | ⟨k, c, rest, hk, hfk, hrest, hD⟩
+    · rw [hp, hD] at h2; simpa using h2
+    · have e : rRead tbl r n = (.ok (c.data.take n),
+          { r with cur := r.cur + 1, bytesRead := r.bytesRead + c.data.length, data := some c.data,
+                   off := (c.data.take n).length }) := by
+        unfold rRead; rw [hl, rNext_some hk hfk]
+      rw [e] at he
+      simp only [Except.ok.injEq] at he
+      have hc := hn (k, c) (find_some_mem hfk)
+      have hlen : (c.data.take n).length = 0 := by rw [he]; rfl
+      rw [List.length_take] at hlen
+      have : 0 < c.data.length := List.length_pos_iff.mpr hc
+      omega
 
 theorem ReaderOk_congr {tbl tbl' : List (K × CRec)} {r : Reader K} {d out : List Nat}
     (hd : ∀ k ∈ r.chunks, dataOf k tbl' = dataOf k tbl) (hr : ReaderOk tbl r d out) : ReaderOk tbl' r d out := by
@@ -436,6 +441,33 @@ theorem session_ok (hi : HashInj h) (cfg : Cfg) (evs : List (List Op × Nat)) {s
       subst hb1
       simp only [h1]
 
+theorem session_NE (cfg : Cfg) (evs : List (List Op × Nat)) {s : State K} (hn : NE s.chunks) {r : Reader K}
+    {s' : State K} {r' : Reader K} {out : List Nat} (hs : session h cfg s r evs = .ok (s', r', out)) : NE s'.chunks := by
+  induction evs generalizing s r out with
+  | nil =>
+    simp only [session, Except.ok.injEq, Prod.mk.injEq] at hs
+    obtain ⟨rfl, _, _⟩ := hs
+    exact hn
+  | cons ev evs ih =>
+    rw [session] at hs
+    cases hrr : rRead (run h cfg s ev.1).chunks r ev.2 with
+    | mk res rd =>
+      rw [hrr] at hs
+      cases res with
+      | error e => simp at hs
+      | ok bs =>
+        simp only at hs
+        cases hss : session h cfg (run h cfg s ev.1) rd evs with
+        | error e => rw [hss] at hs; simp at hs
+        | ok x =>
+          rw [hss] at hs
+          simp only [Except.ok.injEq, Prod.mk.injEq] at hs
+          obtain ⟨e1, e2, _⟩ := hs
+          obtain ⟨x1, x2, x3⟩ := x
+          simp only at e1 e2
+          subst e1 e2
+          exact ih (NE_run h cfg ev.1 hn) hss
+
 theorem rOpen_ok {s : State K} {id : Nat} {a : Art K} (hf : find id s.arts = some a) {d : List Nat}
     (hg : readChunks s.chunks a.chunks = .ok d) :
     ∃ r, rOpen s id = .ok r ∧ r.chunks = a.chunks ∧ ReaderOk s.chunks r d [] := by
@@ -450,9 +482,8 @@ theorem rAllGo_eq (tbl : List (K × CRec)) (fuel : Nat) (r : Reader K) (hfuel : 
   | zero => omega
   | succ fuel ih =>
     rw [rAllGo]
-    unfold rNext
     cases hk : r.chunks[r.cur]? with
-    | none => rw [drop_cur_nil hk]; rfl
+    | none => rw [rNext_none hk, drop_cur_nil hk]; rfl
     | some k =>
       rw [drop_cur_cons hk, readChunks]
       have hlt : r.cur < r.chunks.length := by
@@ -460,17 +491,15 @@ theorem rAllGo_eq (tbl : List (K × CRec)) (fuel : Nat) (r : Reader K) (hfuel : 
         · exact hlt
         · rw [List.getElem?_eq_none hge] at hk; cases hk
       cases hfk : find k tbl with
-      | none => rfl
+      | none => rw [rNext_missing hk hfk]
       | some c =>
+        rw [rNext_some hk hfk]
         simp only
         have := ih { r with cur := r.cur + 1, bytesRead := r.bytesRead + c.data.length } (by simp only; omega)
         simp only at this
-        cases hgo : rAllGo tbl fuel { r with cur := r.cur + 1, bytesRead := r.bytesRead + c.data.length } with
-        | mk res rd =>
-          rw [hgo] at this
-          simp only at this
-          rw [← this]
-          cases res <;> rfl
+        rw [← this]
+        cases rAllGo tbl fuel { r with cur := r.cur + 1, bytesRead := r.bytesRead + c.data.length } with
+        | mk res rd => cases res <;> rfl
 
 theorem rAll_fresh_eq_get (s : State K) (id : Nat) :
     (match rOpen s id with | .error e => .error e | .ok r => (rAll s.chunks r).1) = get s id := by
